@@ -461,8 +461,12 @@ def _call(e, cols, n):
         # polars any/all ignore nulls by default
         vals = [zand(znot(c.null), pdshim._boolval(c)) if name == "any" else zor(c.null, pdshim._boolval(c)) for c in cells]
         return Cell(FALSE, (zor(*vals) if name == "any" else zand(*vals)) if vals else z3.BoolVal(name == "all"), "b")
-    if name in ("std", "var", "median"):
-        raise Unmodelled(f"{name} (outside the linear fragment)")
+    if name in ("var", "median"):
+        if kw.get("ddof", 1) != 1:
+            raise Unmodelled("var(ddof != 1)")
+        return agg(name)  # polars: nulls skipped, sample variance (ddof=1), null below two values
+    if name == "std":
+        raise Unmodelled("std (square root: outside the polynomial fragment)")
     raise Unmodelled(f"polars Expr.{name}")
 
 
